@@ -25,6 +25,84 @@ def key(v, ev):
     return k
 
 
+def cause_key(pred, op):
+    """<relation>:<operation>[#input class].  A folded group is named after its last member (the step undone first).
+    Operations on a layer with a locked alpha channel (A), a locked (L) or a hidden (H) layer are one class each:
+    the undo records of all operations go through the same lock-checking Layer::set_char."""
+    while op.startswith("group(") and op.endswith(")"):
+        inner, depth, last = op[6:-1], 0, 0
+        for i, ch in enumerate(inner):
+            depth += ch == "("
+            depth -= ch == ")"
+            if ch == "+" and depth == 0:
+                last = i + 1
+        op = inner[last:] or "group()"
+        if op == "group()":
+            break
+    name, _, cls = op.partition("#")
+    cl = [x for x in cls.split(",") if x]
+    flags = [x for x in cl if x in ("A", "L", "H")]
+    other = [x for x in cl if x not in ("A", "L", "H")]
+    if flags:
+        return f"{pred}:layer#{','.join(flags)}"
+    return f"{pred}:{name}" + ("#" + ",".join(other) if other else "")
+
+
+def steps_of(events):
+    """driver case (seed + steps) from the recorded events of one case"""
+    seed, steps = 0, []
+    for e in events:
+        if e.get("ev") == "reset":
+            seed, steps = e.get("seed", 0), []
+        elif e.get("ev") in ("op", "undo", "redo", "begin", "end"):
+            if e.get("ev") == "op" and e.get("r") == "skip":
+                continue
+            steps.append({k: e[k] for k in ("ev", "op", "args", "kind") if k in e})
+    return {"seed": seed, "steps": steps}
+
+
+def name_violations(c):
+    """Keys that name the cause: every violating history is shrunk by the driver (delta debugging, same failing
+    predicate) and named after the operation whose undo/redo step first failed in the minimal history."""
+    todo = [v for v in c.viols if v.get("trace") and isinstance(v.get("l"), int) and v.get("prop") == "C08"]
+    if not todo:
+        return
+    by_trace = {}
+    for v in todo:
+        by_trace.setdefault(v["trace"], []).append(v)
+    cases = []
+    for tr, vs in by_trace.items():
+        want = {}
+        for v in vs:
+            want.setdefault(v["l"], []).append(v)
+        mx = max(want)
+        cur = []
+        with open(tr) as f:
+            for i, line in enumerate(f, 1):
+                if '"ev":"reset"' in line:
+                    cur = []
+                cur.append(line)
+                if i in want:
+                    cs = steps_of([json.loads(x) for x in cur])
+                    for v in want[i]:
+                        v["_case"] = len(cases)
+                    cases.append(cs)
+                if i >= mx:
+                    break
+    inp = os.path.join(c.workdir, "viol-cases.json")
+    outp = os.path.join(c.workdir, "viol-keys.json")
+    json.dump(cases, open(inp, "w"))
+    vlib.drive(["c08", "--keys", inp, "--out", outp], timeout=1800)
+    res = json.load(open(outp))
+    for v in todo:
+        k = res[v.pop("_case")]
+        if not k.get("pred"):
+            continue          # not reproduced by the driver's own judge: keep the key derived from the TLC report
+        v["key"] = "panic@" + k["site"] if k["pred"].endswith("Panics") else cause_key(k["pred"], k["op"])
+        if isinstance(v.get("info"), dict):
+            v["info"] = dict(v["info"], culprit=k["op"], minimal={"seed": k["seed"], "steps": k["min"]})
+
+
 def gen():
     """R2: every history shape over E,U,R,B,X,Y within the generator bounds of Gen_Undo.cfg; shapes that are proper
     prefixes of other shapes are dropped (a trace of the longer shape judges every prefix)."""
@@ -56,10 +134,11 @@ def run():
         c.mc(SPEC, "MC_Undo", "MC_Undo_3docs.cfg", workers=4, timeout=900)
     g = gen()
     trace = os.path.join(c.workdir, "trace.ndjson")
-    nsh = 8 if thorough else 4
+    nsh = 16 if thorough else 4
     vlib.drive(["c08", "--out", trace, "--seed", c.seed, "--tier", c.tier, "--gen", SHAPES, "--shards", nsh], timeout=2400)
     shards = [trace.replace(".ndjson", f"-s{i}.ndjson") for i in range(nsh)]
     c.validate(SPEC, "Trace_Undo", "Trace_Undo.cfg", shards, key, procs=4, timeout=2400, xmx="4g")
+    name_violations(c)
     c.sample_from(shards[0], 4)
     summ = {}
     try:
@@ -104,22 +183,18 @@ def run():
 def replay(path):
     """Re-run the recorded history with full snapshots; the driver prints the first differing field."""
     r = json.load(open(path))
-    print(json.dumps({k: r.get(k) for k in ("property", "key", "pred", "info", "occurrences")}, indent=1))
+    print(json.dumps({k: r.get(k) for k in ("property", "key", "pred", "occurrences")}))
     evs = r.get("case") or []
     if not evs and r.get("event"):
         evs = [r["event"]]
-    seed = 0
-    steps = []
-    for e in evs:
-        if e.get("ev") == "reset":
-            seed = e.get("seed", 0)
-            steps = []
-        elif e.get("ev") in ("op", "undo", "redo", "begin", "end"):
-            if e.get("ev") == "op" and e.get("r") == "skip":
-                continue
-            steps.append({k: e[k] for k in ("ev", "op", "args", "kind") if k in e})
+    cs = steps_of(evs)
+    seed, steps = cs["seed"], cs["steps"]
+    mini = (r.get("info") or {}).get("minimal") if isinstance(r.get("info"), dict) else None
     if "steps" in r:      # a hand-written case file: {"seed": n, "steps": [...]}
         seed, steps = r.get("seed", 0), r["steps"]
+    elif mini and os.environ.get("VERIF_REPLAY_FULL") != "1":
+        print(f"(minimal sub-history of the recorded one, {len(steps)} -> {len(mini['steps'])} steps; VERIF_REPLAY_FULL=1 replays the recorded history)")
+        seed, steps = mini["seed"], mini["steps"]
     with tempfile.NamedTemporaryFile("w", suffix=".json", delete=False) as f:
         json.dump({"seed": seed, "steps": steps}, f)
         case = f.name
